@@ -171,8 +171,7 @@ def run(ctx):
             ctx.count('inputs:mutated')
         one_input(ctx, text, k, case, sigs)
         n += 1
-        if k == 5:
-            ctx.case(n=0, sample={k2: v for k2, v in case.items() if k2 != 'text'} | {'text_head': text[:300]})
+        ctx.sample({k2: v for k2, v in case.items() if k2 != 'text'} | {'text_head': text[:300]})
     ctx.case(n=n, sigs=sorted(sigs))
 
 
